@@ -10,6 +10,7 @@ import (
 	"runtime"
 	"strings"
 	"sync"
+	"sync/atomic"
 	"time"
 )
 
@@ -74,6 +75,26 @@ func (w *worker) kill() {
 
 const worldTimeout = 120 * time.Second
 
+// bubble worlds that stall (a lock or hand-off the goroutine seam does not
+// own) are cut short; after a few of them the run falls back to native
+// goroutine scheduling, covered by the uncontrolled process dimension only.
+var bubbleStalls int64
+
+func currentWorldTimeout(req *Req) time.Duration {
+	if req != nil && req.Sched.Bubble {
+		return 20 * time.Second
+	}
+	return worldTimeout
+}
+
+func noteBubbleStall() {
+	if atomic.AddInt64(&bubbleStalls, 1) == 4 {
+		bubbleOn = false
+		uncontrolled++
+		fmt.Fprintln(os.Stderr, "WARNING: worlds stall inside the synctest bubble (a blocking primitive the goroutine seam does not own); falling back to native goroutine scheduling for the rest of the run")
+	}
+}
+
 // do executes one world. Infrastructure trouble comes back as err; a crash of
 // the repo code inside the worker (fatal error, stack overflow) or a timeout
 // is an outcome.
@@ -127,8 +148,11 @@ func (w *worker) do(req *Req) (*Resp, error) {
 			return nil, infraf("bad worker response: %v", err)
 		}
 		return &resp, nil
-	case <-time.After(worldTimeout):
+	case <-time.After(currentWorldTimeout(req)):
 		w.kill()
+		if req.Sched.Bubble {
+			noteBubbleStall()
+		}
 		return &Resp{ID: req.ID, TimedOut: true}, nil
 	}
 }
